@@ -59,5 +59,7 @@ func TryAbsToRel(abs string) string {
 // IsExtOnly checks whether path points to a file with no name but with
 // an extension, i.e. ".yaml"
 func IsExtOnly(path string) bool {
-	return filepath.Base(path) == filepath.Ext(path)
+	base := filepath.Base(path)
+	// "." is the directory itself, not a file that consists of an empty extension
+	return base != "." && base == filepath.Ext(path)
 }
